@@ -250,6 +250,83 @@ def unit(rng, where, typ, shape, val, maxline, qdecl=None, qflv=None):
             "spec": spec}
 
 
+def _emb_value(rng, shape):
+    """abstract value of an embedded-object property: small inner instances
+    (the known char16 / apostrophe defects of nested MOF stay out)"""
+    def one():
+        return {"inst": {"k": "inst", "cls": "EmbCls", "props": [
+            _p("uint32", H.rand_value(rng, "uint32", "scalar"), name="EmbU"),
+            _p("boolean", H.rand_value(rng, "boolean", "arraynull"), True,
+               name="EmbB")]}}
+    if shape == "scalar":
+        return one()
+    if shape == "array":
+        return [one() for _ in range(rng.randint(1, 3))]
+    return H.rand_value(rng, "string", shape)     # empty / null / nullarray
+
+
+def classdflt_unit(rng, typ, arr, dflt, gives, shape, emb, pinned, maxline):
+    """one case of MofTextInst!Universe: an instance whose (primed) class
+    declares `dflt` for the property under test, which the instance gives as
+    `shape` (or does not have: the anchor property keeps the instance
+    expressible).  `pinned`: TLC says the case is in PinnedEmbCases (embedded
+    object property with a NULL / empty-array initializer, where the
+    unchanged tree is the variant embSkipsFalsy)"""
+    def val(sh):
+        return _emb_value(rng, sh) if emb else H.rand_value(rng, typ, sh,
+                                                            "short")
+    cd = {"kind": dflt, "val": None}
+    if dflt in ("scalar", "array"):
+        cd["val"] = val(dflt)
+    asize = rng.choice([-1, -1, 6]) if arr else -1
+    if gives == "absent":
+        p = dict(_p(typ, None, arr, asize=asize), cd=cd, emb=emb)
+        spec = {"k": "inst", "cls": "UnitInstCls", "props": [dict(H.ANCHOR)],
+                "decl": [p]}
+    else:
+        p = dict(_p(typ, val(shape), arr, asize=asize), cd=cd, emb=emb)
+        spec = {"k": "inst", "cls": "UnitInstCls", "props": [p]}
+    spec.update(maxline=maxline, cseed=rng.randint(0, 2**30))
+    return {"gen": "unit",
+            "where": ("instemb" if emb else "instprop") +
+            (".null-or-empty-initializer" if pinned else "") + H.cd_suffix(p),
+            "type": typ, "shape": shape, "spec": spec}
+
+
+def classdflt_units(rng, tlc_cases, rounds):
+    """every case TLC printed for MofTextInst!Universe, `rounds` times"""
+    out = []
+    for _ in range(rounds):
+        for typ, arr, dflt, gives, shape, emb, pinned in tlc_cases:
+            ml = rng.choice([40, 80, rng.randint(40, 130)])
+            out.append(classdflt_unit(rng, typ, arr, dflt, gives, shape, emb,
+                                      pinned, ml))
+    return out
+
+
+def decorate_inst_tree(rng, spec):
+    """random instance trees: the class declares defaults for some of the
+    instance's properties and declares properties the instance lacks"""
+    for p in spec["props"]:
+        if p.get("emb") or rng.random() < 0.4:
+            continue
+        kind = rng.choice(["null", "array" if p["arr"] else "scalar"])
+        p["cd"] = {"kind": kind, "val": None}
+        if kind != "null":
+            p["cd"]["val"] = H.rand_value(rng, p["type"], kind, "short")
+    decl = []
+    for i in range(rng.choice([0, 0, 1, 2])):
+        a = H.rand_prop(rng, 20 + i, True, "short", for_inst=True)
+        kind = rng.choice(["none", "null", "array" if a["arr"] else "scalar"])
+        a["cd"] = {"kind": kind, "val": None}
+        if kind in ("scalar", "array"):
+            a["cd"]["val"] = H.rand_value(rng, a["type"], kind, "short")
+        a["val"] = None
+        decl.append(a)
+    if decl:
+        spec["decl"] = decl
+
+
 STR_WHERES = ["classqual", "propqual", "methqual", "parmqual", "propdefault",
               "instprop", "qdecl", "instemb"]
 VAL_WHERES = ["classqual", "propdefault", "instprop", "qdecl"]
@@ -399,6 +476,20 @@ def corrupted_copies(events, verdicts):
                 c["comp"][i]["scopes"] = el["scopes"][1:] + ["XSCOPE"]
                 out.append((c, "Scopes"))
                 done.add("flv")
+            if "cd" not in done and i < len(e["orig"]) and \
+                    e["orig"][i]["path"] == el["path"] and \
+                    e["orig"][i]["cd"]["kind"] in ("scalar", "array") and \
+                    e["orig"][i]["isnull"]:
+                c = copy.deepcopy(e)        # the class default arrives
+                c["comp"][i]["isnull"] = e["orig"][i]["cd"]["isnull"]
+                c["comp"][i]["val"] = list(e["orig"][i]["cd"]["val"])
+                out.append((c, "diag.ClassDefaultInsteadOfInstanceValue"))
+                done.add("cd")
+            if e["declared"] and "decl" not in done:
+                c = copy.deepcopy(e)        # instantiated from the class
+                c["comp"].append(dict(c["comp"][i], path=e["declared"][0]))
+                out.append((c, "diag.ClassPropertyAddedToInstance"))
+                done.add("decl")
             if el["arr"] == "a" and "arr" not in done:
                 c = copy.deepcopy(e)
                 c["comp"][i]["asize"] = el["asize"] + 1
@@ -488,6 +579,35 @@ def run(ctx):
         st = parse_st(r.out)
         if st is not None:
             cex.append((cfg, st))
+    # instance level: class default x what the instance gives (MofTextInst)
+    ri = ctx.tlc("MofTextInstMC", "MofTextInstMC.cfg", workers=2,
+                 label="instance level: class declares none/NULL/scalar/array "
+                       "x instance gives absent/NULL/value, all 15 types "
+                       "(unchanged tree's p_instanceDeclaration); universe "
+                       "emitted")
+    inst_cases = [tuple(v[1:8]) for v in ri.printed("CASE")]
+    if len(inst_cases) < 300 or len(set(inst_cases)) != len(inst_cases) or \
+            not all(isinstance(c[1], bool) for c in inst_cases):
+        raise vlib.MachineryError("MofTextInstMC universe not emitted: %d"
+                                  % len(inst_cases))
+    refuted = {v[1]: v[2] for v in ri.printed("REFUTED")}
+    if set(refuted) != {"skipNull", "fillAbsent", "omitNull",
+                        "embSkipsFalsy"} or \
+            not all(n > 0 for n in refuted.values()):
+        raise vlib.MachineryError("MofTextInstMC variants not refuted: %r"
+                                  % (refuted,))
+    r = ctx.tlc("MofTextInstMC", "MofTextInstMCLegacyNull.cfg", workers=2,
+                must_pass=False, count=False,
+                label="regression config: p_instanceDeclaration skips the "
+                      "assignment for a NULL initializer")
+    if r.violated not in ("InstRoundTrip", "NullStaysNull"):
+        raise vlib.MachineryError("MofTextInstMCLegacyNull.cfg did not "
+                                  "violate InstRoundTrip: %s" % r.violated)
+    sens.append("MofTextInstMCLegacyNull.cfg violates %s as required (the "
+                "class default replaces a NULL instance value); wrong "
+                "variants refuted inside TLC by %s cases of the universe"
+                % (r.violated, refuted))
+    ctx.extra["instance_universe_cases"] = len(inst_cases)
     ctx.extra["sensitivity"] = sens
     if not quick:
         ctx.tlc("MofTextMC", "MofTextMCBig.cfg", timeout=3000,
@@ -532,7 +652,15 @@ def run(ctx):
     cases += typed_units(rng, 1 if quick else 5)
     cases += flavor_units(rng, 12 if quick else 120)
     cases += qualnull_units(rng)
-    cases += tree_cases(rng, 150 if quick else 1500)
+    trees = tree_cases(rng, 150 if quick else 1500)
+    # own generator for the class-default dimension (the streams above stay
+    # what they were)
+    rng_cd = random.Random(ctx.seed * 7919 + 8)
+    for t in trees:
+        if t["spec"]["k"] == "inst":
+            decorate_inst_tree(rng_cd, t["spec"])
+    cases += trees
+    cases += classdflt_units(rng_cd, sorted(inst_cases), 1 if quick else 4)
 
     # -- 3. real code + TLC verdicts -----------------------------------------------
     comp = H.Comp()
@@ -584,6 +712,8 @@ def run(ctx):
         nfail += 1
         report(ctx, c, e, inf, v)
     ctx.extra["objects_compiled"] = comp.total
+    ctx.extra["class_properties_declared_through_mof_null"] = dict(
+        H.NULL_PRIME)
     ctx.extra["trees_failing_explained_by_elements"] = len(explained)
     ctx.extra["events_rejected"] = nfail + sum(
         1 for v in sub_verdicts if not v["ok"])
@@ -610,6 +740,13 @@ def run(ctx):
         "instances, embedded-object defaults of class properties and array "
         "properties of references are not generated (MOF cannot express "
         "them or tomof() documents their omission)",
+        "instance properties: the primed class declares no default, NULL "
+        "(declared through the real compiler from `= NULL`), a non-NULL "
+        "scalar or a non-NULL array for every CIM type, the instance gives "
+        "the property as absent / NULL / value (TLC-emitted universe "
+        "MofTextInst!Universe); an instance without any property is not "
+        "generated (DSP0004: 1*valueInitializer), the absent case keeps an "
+        "anchor property",
         "class_origin and propagated are not compared (the compiler adds "
         "them); a flavor left open (None) in the original may come back as "
         "None, the DSP0004 default or the declaration's flavor",
